@@ -136,7 +136,7 @@ impl Peers {
     pub fn update_min_filtered_block_number(&self, n: u64) { unimplemented!() }
     // GATE (C06): the cache is only replaced by a vector that keeps the invariant above for the cached check point index
     #[verifier::external_body]
-    pub fn update_cached_block_filter_hashes(&self, hashes: Vec<Byte32>) requires cache_update_ok(hashes@) { unimplemented!() }
+    pub fn update_cached_block_filter_hashes(&self, hashes: Vec<Byte32>) requires cache_update_ok(hashes@) /*props:C06*/ { unimplemented!() }
 }
 pub open spec fn cache_inv(interval: u64, idx: u32, hashes: Seq<Byte32>) -> bool {
     hashes.len() <= interval && (hashes.len() == interval && interval >= 1 ==> cp_authentic(idx as int + 1, hashes[hashes.len() - 1]@))
